@@ -727,6 +727,133 @@ impl LsmTree {
 //@ end
 }
 
+// opening (tree::recover, the function behind Version::open): the region that places the metadata records into levels -- from
+// `let mut levels = vec![Level::default(); NUM_LEVELS]` to the end of the zip loop.  Every record goes into exactly one
+// level: the setsum of the levels is the sum of the records' setsums (with list_ssts_from_manifest: of the files the
+// manifest lists).  `vec![x; n]` is read as the verified loop empty_levels; `zip(vertices, metadata)` over two vectors
+// of the same length as an index loop, the record moved out of the vector read through take_md (X27); Arc::new(m) as m.
+// The level numbers come from the SCC pass above the region (not under contract): that each is below NUM_LEVELS is the
+// region's precondition (the real code would panic on the index otherwise).  The sorts that follow permute each level.
+//@ extract lsmtk/src/tree/mod.rs | const NUM_LEVELS
+//@ end
+struct Vertex { level: usize, color: usize, peers: usize, bytes_within_color: u64 }
+#[verifier::external_body]
+fn take_md(v: &Vec<SstMetadata>, i: usize) -> (r: SstMetadata) requires i < v@.len() ensures r == v@[i as int] { unimplemented!() }
+fn min_usize(a: usize, b: usize) -> (r: usize) ensures r == (if a <= b { a } else { b }) { if a <= b { a } else { b } }
+proof fn lemma_empty_levels(ls: Seq<Level>)
+    requires forall|i: int| 0 <= i < ls.len() ==> (#[trigger] ls[i]).ssts@.len() == 0
+    ensures levels_sum(ls) == gzero()
+    decreases ls.len()
+{
+    if ls.len() > 0 {
+        lemma_empty_levels(ls.drop_last());
+        assert(mds_g(ls.last().ssts@) =~= Seq::<G>::empty());
+        axiom_zero(gzero());
+    }
+}
+fn empty_levels(n: usize) -> (r: Vec<Level>)
+    ensures r@.len() == n, forall|i: int| 0 <= i < n ==> (#[trigger] r@[i]).ssts@.len() == 0
+{
+    let mut v: Vec<Level> = Vec::new();
+    let mut i: usize = 0;
+    while i < n
+        invariant i <= n, v@.len() == i, forall|k: int| 0 <= k < i ==> (#[trigger] v@[k]).ssts@.len() == 0
+        decreases n - i
+    {
+        v.push(Level { ssts: Vec::new() });
+        i += 1;
+    }
+    v
+}
+//@ extract lsmtk/src/tree/recover.rs | fn recover
+//@ region `let mut levels = empty_levels(NUM_LEVELS);` .. `for zi in`
+//@ region-sig <<
+fn recover_place(vertices: Vec<Vertex>, metadata: Vec<SstMetadata>) -> (levels: Vec<Level>)
+//@ >>
+//@ region-tail <<
+    levels
+//@ >>
+//@ rewrite-re X28 `vec!\[Level::default\(\); NUM_LEVELS\]` => `empty_levels(NUM_LEVELS)`
+//@ rewrite-re X27 `for \(v, m\) in std::iter::zip\(vertices, metadata\) \{` => `let zn = min_usize(vertices.len(), metadata.len()); for zi in 0..zn { let v = &vertices[zi]; let m = take_md(&metadata, zi);`
+//@ rewrite-re? X18 `\bArc::new\(` => `(`
+//@ pre <<
+        vertices@.len() == metadata@.len(),
+        forall|i: int| 0 <= i < vertices@.len() ==> (#[trigger] vertices@[i]).level < NUM_LEVELS,
+//@ >>
+//@ post <<
+        levels@.len() == NUM_LEVELS,
+        levels_sum(levels@) == gsum(mds_g(metadata@)),
+//@ >>
+//@ before `let zn = min_usize(` <<
+    proof { lemma_empty_levels(levels@); assert(mds_g(metadata@).take(0) =~= Seq::<G>::empty()); }
+//@ >>
+//@ loop `for zi in` <<
+        invariant zn == metadata@.len(), zn == vertices@.len(), levels@.len() == NUM_LEVELS,
+            forall|i: int| 0 <= i < vertices@.len() ==> (#[trigger] vertices@[i]).level < NUM_LEVELS,
+            levels_sum(levels@) == gsum(mds_g(metadata@).take(zi as int)), /* contract-inv */
+//@ >>
+//@ startloop `for zi in` <<
+        let ghost before = levels@;
+//@ >>
+//@ endloop `for zi in` <<
+        proof {
+            let k = v.level as int;
+            // (guarded: a body that does something else with the record fails the invariant, not these calls)
+            if levels@.len() == before.len() && levels@[k].ssts@ == before[k].ssts@.push(m) && levels@ =~= before.update(k, levels@[k]) {
+                lemma_level_push(before[k], levels@[k], m);
+                lemma_levels_update(before, k, levels@[k], md_g(m));
+            }
+            let g = mds_g(metadata@);
+            assert(g.take(zi as int + 1) =~= g.take(zi as int).push(g[zi as int]));
+            lemma_gsum_push(g.take(zi as int), g[zi as int]);
+        }
+//@ >>
+//@ afterloop `for zi in` <<
+    proof { assert(mds_g(metadata@).take(metadata@.len() as int) =~= mds_g(metadata@)); }
+//@ >>
+//@ end
+
+// the region of tree::recover just above: levels are shifted down so that the deepest is NUM_LEVELS - 1 -- it establishes
+// the precondition of recover_place whatever the SCC pass computed.  `vertices.iter().map(|x| x.level).max()` is read
+// through a stub (an upper bound of every vertex's level, None for no vertices); iter_mut as an index loop (X13).
+#[verifier::external_body]
+fn max_level_of(vertices: &Vec<Vertex>) -> (r: Option<usize>)
+    ensures vertices@.len() == 0 <==> r is None,
+        r is Some ==> forall|i: int| 0 <= i < vertices@.len() ==> (#[trigger] vertices@[i]).level <= r->Some_0,
+        r is Some ==> exists|i: int| 0 <= i < vertices@.len() && (#[trigger] vertices@[i]).level == r->Some_0,
+{ unimplemented!() }
+// a Vec of a 32-byte type holds fewer than 2^58 elements (its allocation is at most isize::MAX bytes)
+#[verifier::external_body]
+proof fn axiom_vertices_len(v: &Vec<Vertex>) ensures v@.len() < 0x0400_0000_0000_0000 { }
+//@ extract lsmtk/src/tree/recover.rs | fn recover
+//@ region `let max_level = max_level_of(&vertices)` .. `if max_level`
+//@ region-sig <<
+#[verifier::loop_isolation(false)]
+fn recover_shift(vertices: &mut Vec<Vertex>)
+//@ >>
+//@ region-tail <<
+//@ >>
+//@ rewrite-re X7 `(?s)let max_level = vertices\s*\.iter\(\)\s*\.map\(\|x\| x\.level\)\s*\.max\(\)` => `let max_level = max_level_of(&vertices)`
+//@ rewrite-re X13 `for v in vertices\.iter_mut\(\) \{` => `for vi in 0..vertices.len() {`
+//@ rewrite-re X13 `\bv\.level\b` => `vertices[vi].level`
+//@ pre <<
+        // what the passes above leave: a level is the initial value `len` or a depth in the component graph
+        forall|i: int| 0 <= i < old(vertices)@.len() ==> (#[trigger] old(vertices)@[i]).level <= old(vertices)@.len(),
+//@ >>
+//@ post <<
+        final(vertices)@.len() == old(vertices)@.len(),
+        forall|i: int| 0 <= i < final(vertices)@.len() ==> (#[trigger] final(vertices)@[i]).level < NUM_LEVELS,
+//@ >>
+//@ bodystart <<
+    proof { axiom_vertices_len(vertices); }
+//@ >>
+//@ loop? `for vi in` <<
+            invariant vertices@.len() == old(vertices)@.len(),
+                forall|i: int| 0 <= i < vi ==> (#[trigger] vertices@[i]).level < NUM_LEVELS, /* contract-inv */
+                forall|i: int| vi <= i < vertices@.len() ==> (#[trigger] vertices@[i]).level <= max_level,
+//@ >>
+//@ end
+
 // opening (LsmTree::from_manifest): the tree rebuilt from the files the manifest lists is accepted only if the sum of its
 // files' setsums is the manifest's recorded output (the digest strings compared name the setsums)
 //@ extract lsmtk/src/tree/mod.rs | impl LsmTree :: fn from_manifest
@@ -1047,6 +1174,6 @@ fn moving_compaction_core(tree: &LsmTree, version: &Version, compaction: Compact
 //@ >>
 //@ end
 
-//@ min-verified 20
+//@ min-verified 25
 } // verus!
 fn main() {}
